@@ -114,6 +114,21 @@ def run_cc(prop, tier):
                     r["variant"] = variant
                     findings.append(r)
     mine = [f for f in findings if f["prop"] == prop]
+    extra_cov = {}
+    if prop == "C08":
+        import rw
+        bad8, panics8, st8, summ8, lines8 = rw.rw_trace(tier, "C08", 3)
+        for f in panics8:
+            f.setdefault("universe", "rewriting(A)")
+        mine += panics8
+        extra_cov = {"rewriting_runs_without_panic": {"recorder": summ8}}
+    if prop == "C14":
+        import rw
+        f2, st2, summ2, ndumps = rw.c14_constfold(tier)
+        mine += f2
+        extra_cov = {"constant_folding": {"tlc_trace": st2, "recorder": summ2, "dumps_checked": ndumps,
+                                          "what": "ConstFold analysis (modify hook adds the literal) on recorded rewriting runs of language A: datum = least "
+                                                  "fixpoint of make over the dumped e-nodes, class with a value contains the literal, value = model value"}}
     others = {}
     for f in findings:
         if f["prop"] != prop:
@@ -148,6 +163,7 @@ def run_cc(prop, tier):
         "findings_attributed_to_other_properties": others,
         "library_variants": variants, "namings": namings,
     }
+    cov.update(extra_cov)
     finish(prop, tier, t0, mine, cov, triggers=make_triggers(tables), assumptions=[
         "TLC explored the bounded model exhaustively (constants above); the Rust code is only claimed to agree "
         "with the specification on the behaviours replayed",
